@@ -69,13 +69,16 @@ func H_C19_Aggregation(v *sym.V) {
 			details = append(details, m)
 		case 2:
 			u := v.Str(name+".url", sym.REGNN, 0, 1)
-			e = errors.WithIssueLink(e, errors.IssueLink{IssueURL: u, Detail: "d"})
+			// the detail may be that of the unimplemented leaf's link, so that a layer's
+			// link can be identical (URL and detail) to the leaf's
+			ld := []string{"d", "ud"}[v.Choice(name+".ldetail", 2)]
+			e = errors.WithIssueLink(e, errors.IssueLink{IssueURL: u, Detail: ld})
 			if u != "" {
 				hints = append(hints, "See: "+u)
 			} else {
 				hints = append(hints, stdstrings.IssueReferral)
 			}
-			links = append(links, errors.IssueLink{IssueURL: u, Detail: "d"})
+			links = append(links, errors.IssueLink{IssueURL: u, Detail: ld})
 		case 3:
 			k := v.Str(name+".key", sym.REGNN, 0, 1) // the empty key is a key too
 			e = errors.WithTelemetry(e, k, "fixed")
